@@ -762,8 +762,6 @@ fn to_array(mac: &[u8]) -> Option<[u8; 6]> {
     mac.get(0..6)?.try_into().ok()
 }
 
-/// Verification hooks (built only with `--cfg erbium_verif`): the two private
-/// helpers that every received packet / every reply goes through.
 /// The largest DHCP message one UDP datagram over IPv4 can carry (65535 - 20 - 8 octets).
 const MAX_UDP4_PAYLOAD: usize = 65507;
 
@@ -782,6 +780,8 @@ fn reply_frame(
     Some(packet::Fragment::new_udp4(src, srcmac, dst, dstmac, packet::Tail::Payload(replybuf)).flatten())
 }
 
+/// Verification hooks (built only with `--cfg erbium_verif`): the private
+/// helpers that every received packet / every reply goes through.
 #[cfg(erbium_verif)]
 pub mod verif {
     pub fn log_options(req: &super::dhcppkt::Dhcp) {
